@@ -28,7 +28,8 @@ CASE_TYPE = "obs * list (op * obs)"
 EXTRA_TARGETS = ["theories/Core/Check.vo"]
 CODES = {1: "model and implementation differ", 2: "solver problem is not the flux-balance problem of the model content (C01)",
          3: "cross references inconsistent (C02)", 4: "model not restored after leaving the context (C03)",
-         5: "__exit__ raised (C03)"}
+         5: "__exit__ raised (C03)",
+         7: "an edit documented to raise did not raise that exception, or changed something (C02)"}
 
 
 # ------------------------------------------------------------------ numbers
@@ -126,6 +127,31 @@ class Impl:
             return self.model.metabolites.get_by_id(mid)
         return self.cobra.Metabolite(mid, compartment="c")
 
+    def foreign(self, m):
+        if getattr(self, "other", None) is None:
+            self.other = self.cobra.Model("other")
+            self.other.add_metabolites([self.cobra.Metabolite("M%d" % i, compartment="c") for i in range(max(self.nm, 8))])
+        return self.other.metabolites.get_by_id("M%d" % m)
+
+    def expect_raise(self, o):
+        """Identifier keys are documented to raise (ValueError: the reaction has no model; KeyError: no such metabolite in
+        the model) -- the Gallina op has no key shapes, so such a step is not given to the model: it must raise that
+        exception and change nothing (harness-side monitor, code 7)."""
+        if o[0] in ("AddSt", "SubSt") and len(o) > 4 and o[4] == "id":
+            r = self.rx.get(o[1])
+            if r is None:
+                return None
+            have = {m.id for m in r._metabolites}
+            for m, _ in o[2]:
+                mid = "M%d" % m
+                if mid in have:
+                    continue
+                if r._model is None:
+                    return "RaiseValueError"
+                if mid not in r._model.metabolites:
+                    return "RaiseKeyError"
+        return None
+
     EDITS = ("SetBounds", "SetLb", "SetUb", "KnockOut", "AddSt", "SubSt", "Imul")
 
     def in_scope(self, o):
@@ -195,7 +221,13 @@ class Impl:
                     self.rx[a[0]].knock_out()
                 elif n in ("AddSt", "SubSt"):
                     r = self.rx[a[0]]
-                    d = {self.met_for(m, r.model is M): float(F(c)) for m, c in a[1]}
+                    shape = a[3] if len(a) > 3 else "obj"
+                    if shape == "id":          # metabolite identifiers as keys
+                        d = {"M%d" % m: float(F(c)) for m, c in a[1]}
+                    elif shape == "foreign":   # metabolite objects that belong to another model (copied by cobrapy)
+                        d = {self.foreign(m): float(F(c)) for m, c in a[1]}
+                    else:
+                        d = {self.met_for(m, r.model is M): float(F(c)) for m, c in a[1]}
                     if n == "AddSt":
                         r.add_metabolites(d, combine=bool(a[2]))
                     else:
@@ -314,10 +346,27 @@ def run_case(case):
     im = Impl(case.get("solver", "glpk"), nr, nm)
     obs0 = im.observe()
     steps = []
+    prev = obs0
     for o in case["ops"]:
+        exp = im.expect_raise(o)
         res = im.apply(o)
-        steps.append(im.observe(res))
+        ob = im.observe(res)
+        if exp is not None:
+            # not a step of the Gallina model: checked here (code 7) and left out of the Coq term
+            ob["skip"] = True
+            bad = []
+            if res != exp:
+                bad.append("expected %s, got %s" % (exp, res))
+            if _content(ob) != _content(prev):
+                bad.append("the raising operation changed the model or the reaction")
+            ob["py_fail"] = bad
+        steps.append(ob)
+        prev = ob
     return obs0, steps
+
+
+def _content(ob):
+    return {k: v for k, v in ob.items() if k not in ("res", "skip", "py_fail")}
 
 
 def universe(case):
@@ -344,7 +393,7 @@ def universe(case):
 def case_term(case):
     obs0, steps = run_case(case)
     t = "(%s, [%s])" % (obs_term(obs0), "; ".join("(%s, %s)" % (op_term(o), obs_term(s))
-                                                  for o, s in zip(case["ops"], steps)))
+                                                  for o, s in zip(case["ops"], steps) if not s.get("skip")))
     return t, (obs0, steps)
 
 
@@ -445,7 +494,9 @@ def gen_history(rng, length, solver="glpk", ctx_p=0.12, max_depth=3, fail_p=0.15
                 k = rng.choice(c)
                 st = stoich()
                 if st:
-                    o = [n, k, st, rng.random() < 0.7]
+                    o = [n, k, st, rng.random() < 0.7, rng.choice(["obj"] * 6 + ["id"] * 3 + ["foreign"] * 2)]
+                    if o[4] == "id" and im.expect_raise(o) is not None and rng.random() >= fail_p * 2:
+                        o[4] = "obj"      # mostly valid identifier keys
         elif n == "SetObj":
             c = in_model_r()
             if rng.random() < fail_p:
@@ -530,7 +581,18 @@ def evaluate(cases):
         impl.append(ob)
         idx.append(i)
     res, faults = K.coq_eval_cases(HEADER, terms, CASE_TYPE, "failing", shard=40, timeout=1500)
-    return {idx[i]: lst for i, lst in res}, faults, impl
+    out = {}
+    for i, lst in res:
+        # Coq numbers the steps it was given; translate back to positions in the op list
+        kept = [n + 1 for n, st in enumerate(impl[idx[i]][1]) if not st.get("skip")]
+        out[idx[i]] = [((kept[s - 1] if 1 <= s <= len(kept) else s), code) for s, code in lst]
+    for i, ob in enumerate(impl):
+        if ob is None:
+            continue
+        extra = [(n + 1, 7) for n, st in enumerate(ob[1]) if st.get("py_fail")]
+        if extra:
+            out[i] = sorted(out.get(i, []) + extra)
+    return out, faults, impl
 
 
 def shrink(case, want):
